@@ -96,6 +96,20 @@ def check(an, rep, tier):
                     'right rank r2 is lost' % (prev,)
         rep.add('S-ret', 'core.core_tt_to_qtt', 'mode size %d -> %d cores '
                 'with outer bonds (r1, r2)' % (n, q), st, detail)
+        if r.k == 'list' and r.items is not None and len(r.items) == q and \
+                q >= 3:
+            # inner cores come from the orthonormal-row right factors of the
+            # successive truncations (first / last core absorb A and V0)
+            states = [c.orth for c in r.items[1:-1]]
+            bad = [s for s in states if s in ('half3', 'weighted3', 'cols3')]
+            rep.add('O-sweep', 'core.core_tt_to_qtt', 'inner QTT cores of '
+                    'mode size %d' % n,
+                    'ok' if all(s == 'rows3' for s in states) else
+                    ('violation' if bad else 'unknown'),
+                    '' if not bad else 'inner cores have states %s: the right '
+                    'factors of the successive truncations must be '
+                    'orthonormal, otherwise later truncation errors are '
+                    'amplified' % states)
         for s in I.sites:
             if s.rule in S_RULES and s.where == 'core.core_tt_to_qtt':
                 rep.add(s.rule, s.where, s.construct, s.status, s.detail)
@@ -221,6 +235,7 @@ def check(an, rep, tier):
     _callers = {f.qualname for f in prog.all_functions()
                 if f.module.name in ('core', 'act_one', 'grid')}
     _RP.check_param_forwarding(prog, rep, callers=_callers)
+    rep.floor('O-sweep', 1, 'orthonormal right factors')
     rep.floor('S-layout', 3, 'merge layouts')
     rep.floor('S-ret', 10, 'conversion results')
     rep.floor('S-pair', 3, 'index map pairing')
